@@ -38,6 +38,7 @@ func C04(c *core.Ctx) {
 	c04Stale(c)
 	c04InputsKept(c)
 	c04InputsRoundedInPlace(c)
+	c04CleanCopies(c)
 	c04ScenarioNotes(c)
 	c04ReadOnly(c)
 	_ = p
